@@ -17,6 +17,13 @@ import vlib
 HERE = os.path.dirname(os.path.abspath(__file__))
 HARN = os.path.dirname(HERE)
 
+# The shared "asan" flavour also enables -fsanitize=pointer-overflow, whose "applying zero offset to null pointer"
+# check fires in emitfunc for most valid programs and hides everything after it; the volume target leaves that
+# one check out (the sites it names are reported separately from the unmutated corpus on the full "asan" build).
+vlib.BUILD_FLAVOURS.setdefault("asan19", (
+    "clang", "-std=c11 -O1 -g -fsanitize=address,undefined -fno-sanitize=pointer-overflow -fno-sanitize-recover=undefined -fno-omit-frame-pointer",
+    "-fsanitize=address,undefined"))
+
 SAN_ENV = {
     "ASAN_OPTIONS": "detect_leaks=0:abort_on_error=0:exitcode=99:allocator_may_return_null=1:detect_stack_use_after_return=0",
     "UBSAN_OPTIONS": "print_stacktrace=1:halt_on_error=1:exitcode=98",
@@ -111,6 +118,7 @@ class Bins:
     def __init__(self, ctx):
         self.asan = os.path.join(vlib.build("asan"), "cproc-qbe")
         self.plain = os.path.join(vlib.build("plain"), "cproc-qbe")
+        self.san = os.path.join(vlib.build("asan19"), "cproc-qbe")
         self.failwrite = ctx.path("failwrite")
         p = subprocess.run(["gcc", "-O1", "-Wall", "-o", self.failwrite, os.path.join(HARN, "failwrite.c")],
                            stdout=subprocess.PIPE, stderr=subprocess.STDOUT, text=True)
@@ -463,6 +471,272 @@ def part_proc(ctx, bins):
 
 
 # ==================================================================================================
+# shared: run one source text on the sanitized build and classify
+# ==================================================================================================
+def allowance(nbytes):
+    return 10 + nbytes // 10000      # 10 s + size-proportional allowance (DESIGN.md C19)
+
+
+def observe(exe, data, args=(), timeout=None):
+    """-> (cls, sig, stderr) with cls in {0, 1, 2, "hang", "crash"}"""
+    rc, out, err = run_cc(exe, data, args, timeout=timeout or allowance(len(data)))
+    sig = crash_signature(rc, err)
+    if sig is None:
+        return rc, None, err
+    if sig == "timeout":
+        return "hang", sig, err
+    return "crash", sig, err
+
+
+def clang_accepts(data, std="c2x"):
+    p = subprocess.run(["clang", "-std=" + std, "-fsyntax-only", "-fbracket-depth=100000", "-w", "-x", "c", "-"], input=data,
+                       stdout=subprocess.PIPE, stderr=subprocess.PIPE)
+    return p.returncode == 0
+
+
+def gcc_accepts(data, std="c2x"):
+    p = subprocess.run(["gcc", "-std=" + std, "-fsyntax-only", "-w", "-x", "c", "-"], input=data, stdout=subprocess.PIPE, stderr=subprocess.PIPE)
+    return p.returncode == 0
+
+
+def audit_class(data, cls_ok):
+    """Spec audit against the two reference front ends. A class "valid" needs both to accept; a class "must be
+    diagnosed" needs at least one to reject (clang recovers silently from an unbalanced `[[a( ( )]]`, gcc does not).
+    Returns None if the references support the specification's class, else a description."""
+    c, g = clang_accepts(data), gcc_accepts(data)
+    if cls_ok and not (c and g):
+        return "specified valid, rejected by %s" % ("clang" if not c else "gcc")
+    if not cls_ok and c and g:
+        return "specified invalid, accepted by clang and gcc"
+    return None
+
+
+# ==================================================================================================
+# (3) Skip.tla
+# ==================================================================================================
+def part_skip(ctx, bins):
+    tier = "quick" if ctx.quick else "thorough"
+    spec = ctx.tlc_must_pass("Skip", "MC_Skip_spec_%s.cfg" % tier, workers=8, coverage=ctx.quick, timeout=900)
+    if ctx.quick:
+        ctx.check_coverage(spec)
+    impl = ctx.tlc_must_pass("Skip", "MC_Skip_impl_%s.cfg" % tier, workers=8, timeout=900)
+    live = ctx.tlc("Skip", "MC_Skip_live.cfg", workers=2, timeout=300)
+    if live.rc != 13 or "Stuttering" not in live.out:
+        raise vlib.MachineryError("Skip.tla: with the deviation on TLC must report the non-terminating attribute loop (rc=%s)" % live.rc)
+    want = {}
+    for v in spec.vcases:
+        c = json.loads(v)
+        want[(c["loop"], tuple(c["stream"]))] = c
+    hang = set()
+    for v in impl.vcases:
+        c = json.loads(v)
+        if c["got"] == "hang":
+            hang.add((c["loop"], tuple(c["stream"])))
+    if len(want) != len(spec.vcases) or not hang:
+        raise vlib.MachineryError("Skip.tla: unexpected enumeration (%d cases, %d predicted hangs)" % (len(want), len(hang)))
+    jobs = []
+    for key in sorted(want):
+        c = want[key]
+        nt = len(c["tail"])
+        if c["shape"] == "closedend":
+            cuts = range(nt + 1)
+        elif c["shape"] == "closedearly":
+            cuts = [nt]
+        else:
+            cuts = [0] if (key in hang and not ctx.quick) else [0, nt]
+        for cut in cuts:
+            jobs.append((key, cut))
+
+    def one(job):
+        key, cut = job
+        c = want[key]
+        text = (c["text"] + "".join(c["tail"][:cut])).encode()
+        cls = c["class"][cut]
+        # spec audit: where the class is certain a reference front end must agree with the grammar-level classification
+        audit = None
+        if cls in ("ok", "diag") and (ctx.quick or hash(key) % 4 == 0):
+            audit = audit_class(text, cls == "ok")
+        obs, sig, err = observe(bins.san, text, timeout=3 if key in hang else 10)
+        return key, cut, text, cls, audit, obs, sig, err
+
+    res = vlib.pmap(one, jobs, workers=16)
+    n = 0
+    for key, cut, text, cls, audit, obs, sig, err in res:
+        c = want[key]
+        if audit is not None:
+            raise vlib.MachineryError("SPEC-AUDIT Skip.tla: %s: %r" % (audit, text))
+        n += 1
+        ctx.count("skip/%s/%s/%d" % (key[0], "".join(key[1]), cut), nontrivial=c["shape"] != "closedend" or cut < len(c["tail"]))
+        case = {"loop": key[0], "stream": list(key[1]), "cut": cut, "source": text.decode(), "class": cls, "shape": c["shape"]}
+        if obs == "crash":
+            ctx.violation(sig, "sanitizer report / abnormal end on a Skip.tla stream", dict(case, stderr=err[-1500:]))
+            continue
+        got = {0: "ok", 1: "diag"}.get(obs, obs)
+        if got == "hang":
+            if key in hang:
+                ctx.violation("skip:parseattr-eof", "attribute argument skipping never terminates when the input ends first", case)
+            else:
+                ctx.violation("skip:hang:%s:%s" % (key[0], c["shape"]), "loop does not terminate within the time limit", case)
+        elif got not in ("ok", "diag") or (cls != "any" and got != cls):
+            ctx.violation("skip:%s:%s:want=%s:got=%s" % (key[0], c["shape"], cls, got), "outcome class differs from Skip.tla", dict(case, stderr=err[-400:]))
+    ctx.validated(n)
+    ctx.sample({"part": "Skip", "case": {k: want[sorted(want)[7]][k] for k in ("loop", "stream", "text", "class")}})
+    ctx.cov["skip"] = {"streams": len(want), "predicted_hangs": len(hang), "inputs": n}
+
+
+# ==================================================================================================
+# (2) Bounds.tla
+# ==================================================================================================
+def render_bound(fam, n):
+    """-> (source bytes, args) ; glue only: what a family name means as C text."""
+    A = lambda k: "a" * k
+    if fam == "ident":
+        return "int %s;\n" % A(n), []
+    if fam == "string":
+        return 'char *v = "%s";\n' % A(n), []
+    if fam == "escstring":
+        return 'char *v = "%s";\n' % ("\\n" * n), []
+    if fam == "ppnumber":
+        return "1" * n + "\n", ["-E"]
+    if fam == "floatconst":
+        return "double v = 1.%s;\n" % ("0" * max(n - 2, 0)), []
+    if fam == "comment":
+        return "/*%s*/ int v;\n" % A(n), []
+    if fam == "stringize":
+        return "#define S(x) #x\nchar *v = S(%s);\n" % A(n), []
+    if fam == "macrobody":
+        return "#define M %s\nM\n" % " ".join(["1"] * n), ["-E"]
+    if fam == "macrochain":
+        return "#define A0 1\n" + "".join("#define A%d A%d\n" % (i, i - 1) for i in range(1, n + 1)) + "int v = A%d;\n" % n, []
+    if fam == "macroargtoks":
+        return "#define F(x) x\nF(%s)\n" % " ".join(["1"] * n), ["-E"]
+    if fam == "callargs":
+        return "int f(int, ...); int g(void) { return f(%s); }\n" % ", ".join(["1"] * n), []
+    if fam == "strconcat":
+        return "char *v = %s;\n" % " ".join(['"a"'] * n), []
+    if fam == "peeknl":
+        return "#define F(x) x\nint v = F%s(1);\n" % ("\n" * n), []
+    if fam == "initlist":
+        return "int a[] = {%s};\n" % ", ".join(["1"] * n), []
+    if fam == "params":
+        return "#define F(%s) 0\nint v = F(%s);\n" % (", ".join("p%d" % i for i in range(n)), ", ".join(["1"] * n)), []
+    if fam == "braces":
+        return "int a%s = %s1%s;\n" % ("[1]" * n, "{" * n, "}" * n), []
+    if fam == "idxdesig":
+        return "int a%s = {%s = 1};\n" % ("[1]" * n, "[0]" * n), []
+    if fam == "implicit":
+        return "int a%s = {1};\n" % ("[1]" * n), []
+    if fam in ("memdesig", "structbraces"):
+        s = "int x;"
+        for _ in range(n):
+            s = "struct { %s } a;" % s
+        decl = s[:-2]
+        if fam == "memdesig":
+            return "%sv = {%s.x = 1};\n" % (decl, ".a" * (n - 1)), []
+        return "%sv = %s1%s;\n" % (decl, "{" * n, "}" * n), []
+    if fam == "desc_ident":
+        return "int a %s;\n" % A(n - 13), []
+    if fam == "desc_number":
+        return "int a %s;\n" % ("1" * (n - 9)), []
+    if fam == "desc_string":
+        return 'int a "%s";\n' % A(n - 9), []
+    if fam == "margs":
+        np_, rest = divmod(n, 100)
+        na, v = divmod(rest, 2)
+        params = ["p%d" % i for i in range(np_ - v)] + (["..."] if v else [])
+        if v and np_ == 0:
+            params = []
+        args = ", ".join(["1"] * na)
+        return "#define F(%s) 0\nint v = F(%s);\n" % (", ".join(params), args), []
+    d = n
+    if fam == "parens":
+        return "int v = %s1%s;\n" % ("(" * d, ")" * d), []
+    if fam == "blocks":
+        return "void f(void) { %s%s }\n" % ("{" * d, "}" * d), []
+    if fam == "declparens":
+        return "int %sx%s;\n" % ("(" * d, ")" * d), []
+    if fam == "pointers":
+        return "int %sx;\n" % ("*" * d), []
+    if fam == "unaryneg":
+        return "int v = %s1;\n" % ("- " * d), []
+    if fam == "lognot":
+        return "int v = %s1;\n" % ("!" * d), []
+    if fam == "dims":
+        return "int a%s;\n" % ("[1]" * d), []
+    if fam == "elseif":
+        return "int f(int x) { %sreturn 0; }\n" % ("if (x) return 1; else " * d), []
+    if fam == "ifnest":
+        return "int f(int x) { %sreturn 1; return 0; }\n" % ("if (x) " * d), []
+    if fam == "structnest":
+        return "%sint x;%s\n" % ("struct { " * d, " } a;" * d), []
+    if fam == "casts":
+        return "int v = %s1;\n" % ("(int)" * d), []
+    if fam == "sizeofs":
+        return "unsigned long v = %s1;\n" % ("sizeof " * d), []
+    if fam == "ternary":
+        return "int v = %s0;\n" % ("1 ? 1 : " * d), []
+    if fam == "subscripts":
+        return "int a[1]; int f(void) { return %s0%s; }\n" % ("a[" * d, "]" * d), []
+    if fam == "calls":
+        return "int f(int); int g(void) { return %s0%s; }\n" % ("f(" * d, ")" * d), []
+    raise vlib.MachineryError("Bounds.tla: unknown family %s" % fam)
+
+
+DEPTH_FAMS = {"parens", "blocks", "declparens", "pointers", "unaryneg", "dims", "elseif", "structnest", "casts", "sizeofs", "ternary",
+              "lognot", "subscripts", "calls", "ifnest"}
+
+
+def part_bounds(ctx, bins):
+    r = ctx.tlc_must_pass("Bounds", "MC_Bounds_%s.cfg" % ("quick" if ctx.quick else "thorough"), workers=8, coverage=ctx.quick, timeout=900)
+    if ctx.quick:
+        ctx.check_coverage(r)
+    if len(r.vcases) != 1:
+        raise vlib.MachineryError("Bounds.tla: expected one VCASE line with the case set")
+    cases = json.loads(r.vcases[0])["cases"]
+
+    def one(c):
+        src, args = render_bound(c["fam"], c["n"])
+        data = src.encode()
+        # instrumented frames are ~3x larger: beyond depth 1000 the plain build is the target (stack exhaustion of the
+        # sanitized build is an artefact of the instrumentation, not of the compiler)
+        deep = c["fam"] in DEPTH_FAMS and c["n"] > 1000
+        exe = bins.plain if deep else bins.san
+        audit = None
+        if c["class"] in (0, 1) and len(data) < 20000 and not (c["fam"] in DEPTH_FAMS and c["n"] > 100) and "-E" not in args:
+            if c["class"] == 0 or c["fam"].startswith("desc_") or c["fam"] == "margs":
+                audit = audit_class(data, c["class"] == 0)
+        obs, sig, err = observe(exe, data, args)
+        return c, data, args, audit, obs, sig, err, deep
+
+    res = vlib.pmap(one, cases, workers=16)
+    n = 0
+    for c, data, args, audit, obs, sig, err, deep in res:
+        if audit is not None:
+            raise vlib.MachineryError("SPEC-AUDIT Bounds.tla: %s(%d) class %d: %s" % (c["fam"], c["n"], c["class"], audit))
+        n += 1
+        ctx.count("bounds/%s/%d" % (c["fam"], c["n"]), nontrivial=True)
+        case = {"family": c["fam"], "n": c["n"], "class": c["class"], "args": args, "build": "plain" if deep else "asan+ubsan",
+                "source": data[:300].decode() + ("..." if len(data) > 300 else "")}
+        if obs in ("crash", "hang"):
+            ctx.violation(sig if obs == "crash" else "bounds:hang:%s" % c["fam"], "sanitizer report / abnormal end / timeout on a boundary input of Bounds.tla",
+                          dict(case, stderr=err[-1500:]))
+            continue
+        if c["class"] != 2 and obs != c["class"]:
+            ctx.violation("bounds:%s:n=%d:want=%d:got=%s" % (c["fam"], c["n"], c["class"], obs), "outcome class differs from Bounds.tla", dict(case, stderr=err[-400:]))
+            continue
+        if c["held"] >= 0:
+            m = re.search(r", saw (.*)$", err.strip().split("\n")[-1])
+            got = len(m.group(1).encode()) if m else -1
+            if got != c["held"]:
+                ctx.violation("bounds:%s:n=%d:held=%d:got=%d" % (c["fam"], c["n"], c["held"], got),
+                              "token description in the diagnostic has %d bytes, Bounds.tla says the 64-byte buffer holds %d" % (got, c["held"]),
+                              dict(case, stderr=err[-400:]))
+    ctx.validated(n)
+    ctx.sample({"part": "Bounds", "case": cases[len(cases) // 3]})
+    ctx.cov["bounds"] = {"boundary_inputs": n, "families": len({c["fam"] for c in cases})}
+
+
+# ==================================================================================================
 def run(ctx):
     ctx.level = "fault_enumeration"
     bins = Bins(ctx)
@@ -470,3 +744,5 @@ def run(ctx):
                        "output size around multiples of the stdio buffer) rendered to a real invocation; non-trivial = a fault, an "
                        "error path or a non-default descriptor is involved.")
     part_proc(ctx, bins)
+    part_skip(ctx, bins)
+    part_bounds(ctx, bins)
